@@ -60,7 +60,8 @@ class SideEngine(txn.TxnEngine):
         if tp is None:
             return False
         root, fields, derefd = al.norm(place)
-        return root == r['root'] and tuple(fields) == tuple(tp)
+        # the value behind the pointer / reference capture, not a copy of the reference itself
+        return root == r['root'] and tuple(fields) == tuple(tp) and derefd
 
     def _copies_whole(self, al, s, r):
         """Statement s reads (copies) the whole tracked field: `x = self.f` or `(.., self.f, ..)`."""
